@@ -118,77 +118,103 @@ func TestC28(t *testing.T) {
 			}
 		}
 		rep["records_written_before"], rep["records_read_before"] = a, b
-		ks, err := h.Client.GetOutKeystream(j.n)
-		if !isAEADSuite(j.c.suite) {
-			if err == nil {
-				sig["kind"] = "keystream_for_non_aead"
-				r.Violation(sig, fmt.Sprintf("%#04x/%#04x: GetOutKeystream succeeded for a non-AEAD suite", j.c.v, j.c.suite), rep)
-			} else {
-				r.Count("non_aead_refused", 1)
+		probe := func(round string) bool {
+			sig["round"] = round
+			ks, err := h.Client.GetOutKeystream(j.n)
+			if !isAEADSuite(j.c.suite) {
+				if err == nil {
+					sig["kind"] = "keystream_for_non_aead"
+					r.Violation(sig, fmt.Sprintf("%#04x/%#04x: GetOutKeystream succeeded for a non-AEAD suite", j.c.v, j.c.suite), rep)
+				} else {
+					r.Count("non_aead_refused", 1)
+				}
+				r.Case(fmt.Sprintf("%04x|%04x|nonaead", j.c.v, j.c.suite), true)
+				return false
 			}
-			r.Case(fmt.Sprintf("%04x|%04x|nonaead", j.c.v, j.c.suite), true)
+			if err != nil {
+				sig["kind"] = "keystream_error"
+				r.Violation(sig, fmt.Sprintf("%#04x/%#04x: GetOutKeystream(%d): %v", j.c.v, j.c.suite, j.n, err), rep)
+				return false
+			}
+			if len(ks) < j.n {
+				sig["kind"] = "keystream_short"
+				r.Violation(sig, fmt.Sprintf("GetOutKeystream(%d) returned %d bytes", j.n, len(ks)), rep)
+				return false
+			}
+			before, _ := h.Tap.Snapshot()
+			p := randBytes(rg, []int{1, 100, 2000, 16384, 30000}[rg.Intn(5)])
+			got := make([]byte, len(p))
+			errc := make(chan error, 1)
+			go func() { _, e := io.ReadFull(h.Server, got); errc <- e }()
+			if _, err := h.Client.Write(p); err != nil {
+				sig["kind"] = "write_after_keystream_failed"
+				r.Violation(sig, err.Error(), rep)
+				return false
+			}
+			if err := <-errc; err != nil || !bytes.Equal(got, p) {
+				sig["kind"] = "peer_rejects_after_keystream"
+				r.Violation(sig, fmt.Sprintf("%#04x/%#04x: after GetOutKeystream the peer did not receive the written data intact (%v)", j.c.v, j.c.suite, err), rep)
+				return false
+			}
+			after, _ := h.Tap.Snapshot()
+			recs, _, _ := wire.SplitRecords(after[len(before):])
+			var first *wire.Record
+			for k := range recs {
+				if recs[k].Type == 23 {
+					first = &recs[k]
+					break
+				}
+			}
+			if first == nil {
+				sig["kind"] = "no_record_observed"
+				r.Violation(sig, "no application_data record on the wire after Write", rep)
+				return false
+			}
+			en := explicitNonceLen(j.c.v, j.c.suite)
+			body := first.Body[en:]
+			ptLen := len(first.Body) - en - 16
+			if j.c.v == tls.VersionTLS13 {
+				ptLen-- // inner content type
+			}
+			m := j.n
+			if ptLen < m {
+				m = ptLen
+			}
+			if len(p) < m {
+				m = len(p)
+			}
+			for k := 0; k < m; k++ {
+				if body[k] != p[k]^ks[k] {
+					sig["kind"] = "keystream_mismatch"
+					r.Violation(sig, fmt.Sprintf("%#04x/%#04x n=%d after %d written / %d read records: ciphertext byte %d of the next record is not plaintext XOR keystream (record plaintext %d bytes)", j.c.v, j.c.suite, j.n, a, b, k, ptLen), rep)
+					break
+				}
+			}
+			r.Count("keystream_bytes_compared", int64(m))
+			r.Count("keystream_probe_"+round, 1)
+			return true
+		}
+		if !probe("first") {
 			return
 		}
-		if err != nil {
-			sig["kind"] = "keystream_error"
-			r.Violation(sig, fmt.Sprintf("%#04x/%#04x: GetOutKeystream(%d): %v", j.c.v, j.c.suite, j.n, err), rep)
-			return
-		}
-		if len(ks) < j.n {
-			sig["kind"] = "keystream_short"
-			r.Violation(sig, fmt.Sprintf("GetOutKeystream(%d) returned %d bytes", j.n, len(ks)), rep)
-			return
-		}
-		before, _ := h.Tap.Snapshot()
-		p := randBytes(rg, []int{1, 100, 2000, 16384, 30000}[rg.Intn(5)])
-		got := make([]byte, len(p))
-		errc := make(chan error, 1)
-		go func() { _, e := io.ReadFull(h.Server, got); errc <- e }()
-		if _, err := h.Client.Write(p); err != nil {
-			sig["kind"] = "write_after_keystream_failed"
-			r.Violation(sig, err.Error(), rep)
-			return
-		}
-		if err := <-errc; err != nil || !bytes.Equal(got, p) {
-			sig["kind"] = "peer_rejects_after_keystream"
-			r.Violation(sig, fmt.Sprintf("%#04x/%#04x: after GetOutKeystream the peer did not receive the written data intact (%v)", j.c.v, j.c.suite, err), rep)
-			return
-		}
-		after, _ := h.Tap.Snapshot()
-		recs, _, _ := wire.SplitRecords(after[len(before):])
-		var first *wire.Record
-		for k := range recs {
-			if recs[k].Type == 23 {
-				first = &recs[k]
-				break
+		if isAEADSuite(j.c.suite) {
+			// the same again on the same connection (sequence number advanced)
+			if !probe("second") {
+				return
+			}
+			if j.c.v == tls.VersionTLS13 && j.rep%2 == 0 {
+				// the server asks the client to rotate its write key: the keystream must follow
+				if err := tls.VerifSendKeyUpdate(h.Server, true); err == nil {
+					if err := oneWayRW(h.Server, h.Client, 10); err != nil { // the client reads the KeyUpdate and answers it
+						r.Count("setup_failed", 1)
+						return
+					}
+					if !probe("after-key-update") {
+						return
+					}
+				}
 			}
 		}
-		if first == nil {
-			sig["kind"] = "no_record_observed"
-			r.Violation(sig, "no application_data record on the wire after Write", rep)
-			return
-		}
-		en := explicitNonceLen(j.c.v, j.c.suite)
-		body := first.Body[en:]
-		ptLen := len(first.Body) - en - 16
-		if j.c.v == tls.VersionTLS13 {
-			ptLen-- // inner content type
-		}
-		m := j.n
-		if ptLen < m {
-			m = ptLen
-		}
-		if len(p) < m {
-			m = len(p)
-		}
-		for k := 0; k < m; k++ {
-			if body[k] != p[k]^ks[k] {
-				sig["kind"] = "keystream_mismatch"
-				r.Violation(sig, fmt.Sprintf("%#04x/%#04x n=%d after %d written / %d read records: ciphertext byte %d of the next record is not plaintext XOR keystream (record plaintext %d bytes)", j.c.v, j.c.suite, j.n, a, b, k, ptLen), rep)
-				break
-			}
-		}
-		r.Count("keystream_bytes_compared", int64(m))
 		// later traffic still works in both directions
 		if err := oneWayRW(h.Client, h.Server, 300); err != nil {
 			sig["kind"] = "later_traffic_broken"
@@ -200,7 +226,7 @@ func TestC28(t *testing.T) {
 		}
 		r.Case(fmt.Sprintf("%04x|%04x|%d|%d", j.c.v, j.c.suite, j.n, a/8), true)
 		if i%47 == 0 {
-			r.Sample(map[string]any{"version": fmt.Sprintf("%#04x", j.c.v), "suite": fmt.Sprintf("%#04x", j.c.suite), "n": j.n, "written_before": a, "read_before": b, "compared": m, "record_plaintext": ptLen})
+			r.Sample(map[string]any{"version": fmt.Sprintf("%#04x", j.c.v), "suite": fmt.Sprintf("%#04x", j.c.suite), "n": j.n, "written_before": a, "read_before": b})
 		}
 	})
 	r.Floor("keystream_bytes_compared", 50000)
